@@ -79,6 +79,22 @@ CYCLE_CORPUS = [
             '(assert (= (* s 2.0) (* s 2.0)))\n(assert (q (* s 2.0)))\n',
         ],
     },
+    {
+        # a variable equated with a term that contains it two levels down:
+        # eliminating the variable (blocked by EliminateVariable's guard on
+        # the unchanged tree) and replacing by children lead back to the input
+        # (shape from seeded change S64)
+        'name': 'self-referential equality (EliminateVariable + ReplaceByChild)',
+        'decl': '(declare-const x Int)\n',
+        'members': [
+            '(assert (= x (+ (* x 2) 1)))\n',
+            '(assert (= (+ (* (+ (* x 2) 1) 2) 1) (+ (* x 2) 1)))\n',
+            '(assert (= (* (+ (* x 2) 1) 2) (+ (* x 2) 1)))\n',
+            '(assert (= (+ (* x 2) 1) (+ (* x 2) 1)))\n',
+            '(assert (= (* x 2) (+ (* x 2) 1)))\n',
+        ],
+        'tail': '',
+    },
 ]
 
 
@@ -161,7 +177,7 @@ class C03(props.Prop):
         if rng.random() < 0.1:
             # a command that accepts exactly the members of a would-be cycle
             c = rng.choice(CYCLE_CORPUS)
-            tail = '(check-sat)\n'
+            tail = c.get('tail', '(check-sat)\n')
             texts = [c['decl'] + m + tail for m in c['members']]
             spec = workload.base_spec(
                 rng, jobs=(1, 1, 2), out_modes=('', ),
